@@ -480,7 +480,8 @@ class C13Monitor(Monitor):
         self.rest_seen = 0
         self.df_seen = {n: 0 for n in f.procs}
         self.wo_only = set()
-        touched = {o.get('dev') for o in f.spec.get('ops', []) if o['op'] in ('fail', 'shutdown', 'restore')}
+        touched = {o.get('dev') for o in f.spec.get('ops', []) + f.spec.get('between', [])
+                   if o['op'] in ('fail', 'shutdown', 'restore')}
         self.wo_only = {n for n in f.procs if n not in touched}
         self.fail_type = f.lib.EventType.FAIL
         self.restored_holding = {}
@@ -790,6 +791,17 @@ class C16Monitor(Monitor):
 # ===========================================================================
 # C17 batching
 # ===========================================================================
+class C16Final(Monitor):
+    def finish(self, f):
+        known = list(f.system._assets)
+        tot = sum(a.value for a in known)
+        f.lib.System()        # another System takes over as the active one
+        net = f.system.get_net_value_of_assets()
+        if net != tot:
+            f.fail('C16.g', f'after another System was created, the net value of the first one reads {net}; its assets sum '
+                   f'to {tot}', 'net_of_replaced_system')
+
+
 class C17Monitor(Monitor):
     def start(self, f):
         self.batchers = [n for n in f.holders if f.kind[n] == 'batcher']
@@ -1080,6 +1092,7 @@ class C15Monitor(Monitor):
         ET = f.lib.EventType
         self.ET = ET
         self.known_resources = set(f.spec.get('resources', {}))
+        self.part_before = {}
 
     def scan(self, f):
         """(c) every new record is stamped with the current time; returns the new records."""
@@ -1103,20 +1116,29 @@ class C15Monitor(Monitor):
     def before_step(self, f):
         if f.step_no == 1:
             self.scan(f)    # records written during initialisation
+        self.part_before = {n: f.dev[n]._part for n in f.procs}
 
     def after_step(self, f, e):
         env, now, sd = f.env, f.env.now, f.env.simulation_data
         ET = self.ET
-        if e is not None:
+        if e is not None and f.trace_on:
             a = e.action
             self.dispatch_log.append({'time': e.time, 'asset_id': e.asset_id,
                                       'action': getattr(a, '__name__', None) or getattr(getattr(a, 'func', None), '__name__', None),
                                       'message': e.message, 'event_type': e.event_type})
+        if e is not None:
             if not e.cancelled:
                 if e.event_type == ET.FAIL:
                     for n in f.procs:
                         if f.dev[n].id == e.asset_id:
                             self.n_fail[n] += 1
+                            # the failure record names the part that was in process (whatever kind of part it is)
+                            lost = self.part_before.get(n)
+                            recs = sd.get('device_failure', {}).get(n, [])
+                            want = (now, lost.id if lost is not None else None)
+                            if not recs or tuple(recs[-1]) != want:
+                                f.fail('C15.c', f'failure of {n} at {now} with {getattr(lost, "name", None)} in process recorded '
+                                       f'{recs[-1] if recs else None}, expected {want}', 'failure_record')
                 if f.maint is not None and e.asset_id == f.maint.id:
                     if e.event_type == ET.START_WORK:
                         self.n_start += 1
@@ -1204,7 +1226,7 @@ class C15Monitor(Monitor):
         self.ev(f, 'C15')
 
     def after_simulate(self, f):
-        if not f.spec.get('trace'):
+        if not f.trace_on:
             return
         import json
         path = os.path.join(os.environ['HOME'], 'Downloads', f'{f.env.name}_trace.json')
@@ -1242,6 +1264,8 @@ class C01FloorMonitor(Monitor):
         self.keep = []
 
     def before_step(self, f):
+        if f.pseudo_step:
+            return
         q = list(f.env._events)
         self.snap = q
         self.min_key = min((e.time, -e.event_type) for e in q)
@@ -1249,6 +1273,8 @@ class C01FloorMonitor(Monitor):
 
     def after_step(self, f, e):
         env = f.env
+        if f.pseudo_step:
+            return
         if e is None:
             f.fail('C01.a', 'step() executed no event', 'noexec')
         if not any(e is x for x in self.snap):
@@ -1316,11 +1342,54 @@ def probe_candidates(f, holder, item, cands):
 class C08FMonitor(Monitor):
     SINGLE = ('handler', 'proc', 'sink')
 
+    def post_step_choices(self, f, now):
+        """Every hand-over of this dispatch from a holder with >= 2 directly connected single-slot candidates (a buffer
+        can hand over several parts in one dispatch): a candidate that stayed empty through the whole dispatch, had been
+        idle longer than the taker under both readings, and accepts the same part when offered now (nothing frees
+        capacity inside a dispatch, so it would have accepted then too) should have received it."""
+        if f.rewired or not self.direct or f.pseudo_step:
+            return
+        new = f.recv_log[self.post_seen:]
+        self.post_seen = len(f.recv_log)
+        if not new:
+            return
+        took = {}
+        for rec in new:
+            took.setdefault(rec[0], []).append(rec[1])
+        tmp_empty = dict(self.empty_since)
+        for rec in new:
+            x, item = rec[0], rec[1]
+            if x not in self.idle_since:
+                continue
+            holders = [h for h, dn in self.direct.items() if x in dn]
+            src_h = None
+            for h in holders:
+                names = [f.name_of.get(id(d)) for d in item.routing_history]
+                if len(names) >= 2 and names[-1] == x and names[-2] == h:
+                    src_h = h
+            x_since = tmp_empty.get(x)
+            # after accepting, a zero-cycle sink is empty again at `now`; anything else is busy
+            tmp_empty[x] = now if (f.kind[x] == 'sink' and f.dev[x]._part is None) else None
+            if src_h is None or x_since is None:
+                continue
+            cands = [y for y in self.direct[src_h] if y != x and y not in took and self.idle_since.get(y) is not None
+                     and self.idle_since[y] < x_since]
+            cands = [y for y in cands if f.dev[y].is_operational() and f.dev[y]._part is None and f.dev[y]._output is None]
+            if not cands:
+                continue
+            f.bump(f.stats['reach'], 'post_step_choice_probes')
+            acc = probe_candidates(f, src_h, item, cands)
+            if acc:
+                f.fail('C08.f', f'{src_h} handed {item.name} to {x} (empty since {x_since}) although {acc} stayed idle, would '
+                       f'have accepted it and has been empty and operational since {[self.idle_since[y] for y in acc]}',
+                       'not_longest_idle')
+
     def start(self, f):
         self.single = [n for n in f.holders if f.kind[n] in self.SINGLE]
         self.idle_since = {n: 0 for n in self.single}     # empty and operational since
         self.empty_since = {n: 0 for n in self.single}    # empty since (whatever the operational state)
         self.recv_seen = 0
+        self.post_seen = 0
         self.pending = None
         g = RouteGraph(f.spec)
         self.direct = {}
@@ -1333,7 +1402,7 @@ class C08FMonitor(Monitor):
 
     def before_step(self, f):
         self.pending = None
-        if f.rewired or not self.direct:
+        if f.rewired or not self.direct or f.pseudo_step:
             return
         ev = f.env._events[0]
         a = ev.action
@@ -1377,6 +1446,7 @@ class C08FMonitor(Monitor):
                            f'{longer} would have accepted it and has been empty and operational since '
                            f'{[since[c][0] for c in longer]}', 'not_longest_idle')
             self.pending = None
+        self.post_step_choices(f, now)
         for n in self.single:
             o = f.dev[n]
             empty = o._part is None and o._output is None
@@ -1401,6 +1471,6 @@ BY_PROP = {
     'C11': [C11Monitor],
     'C13': [DownTracker, Integrator, C13Monitor],
     'C15': [C15Monitor],
-    'C16': [Census, C16Monitor],
+    'C16': [Census, C16Monitor, C16Final],
     'C17': [C17Monitor],
 }
